@@ -4,6 +4,7 @@ import Mathlib.LinearAlgebra.Matrix.Kronecker
 import Mathlib.LinearAlgebra.Matrix.Trace
 import Mathlib.LinearAlgebra.Matrix.PosDef
 import Mathlib.Analysis.SpecialFunctions.Log.NegMulLog
+import Mathlib.Analysis.Matrix.Order
 /-!
 # Mathematical vocabulary of C14 in Mathlib's terms
 
@@ -16,6 +17,7 @@ import Mathlib.Analysis.SpecialFunctions.Log.NegMulLog
 -/
 namespace Toq.Entangle
 open Matrix
+open scoped ComplexOrder MatrixOrder
 
 /-- function matrix → Mathlib matrix -/
 def toM {α : Type} (r c : Nat) (A : Nat → Nat → α) : Matrix (Fin r) (Fin c) α := fun i j => A i.val j.val
@@ -36,5 +38,12 @@ def IsProductAmp {m n α : Type} [Mul α] (A : Matrix m n α) : Prop := ∃ (x :
 
 /-- all `2 × 2` minors of `A` vanish -/
 def MinorsVanish {m n α : Type} [Mul α] (A : Matrix m n α) : Prop := ∀ a a' b b', A a b * A a' b' = A a b' * A a' b
+
+/-- `|ψ⟩⟨ψ|` (indexed by pairs) for the vector with amplitude matrix `A` -/
+def pureOfAmp {m n : Type} (A : Matrix m n ℂ) : Matrix (m × n) (m × n) ℂ :=
+  fun p q => A p.1 p.2 * star (A q.1 q.2)
+
+/-- trace norm `‖X‖₁ = tr √(XᴴX)` -/
+noncomputable def traceNorm {ι : Type} [Fintype ι] [DecidableEq ι] (X : Matrix ι ι ℂ) : ℂ := (CFC.sqrt (Xᴴ * X)).trace
 
 end Toq.Entangle
